@@ -13,6 +13,10 @@ DiagMatrix(v) == LET n == Len(v) IN [k \in 1..(n * n) |-> IF (k - 1) \div n = (k
 Toeplitz(x)  == LET n == Len(x) IN [k \in 1..(n * n) |-> x[Abs(((k - 1) \div n) - ((k - 1) % n)) + 1]]
 Vandermonde(x, n) == [k \in 1..(Len(x) * n) |-> Pow(x[((k - 1) \div n) + 1], (k - 1) % n)]
 \* one regressor column x (length rows): rows x 2, first column ones
+\* design matrix of k predictor columns stored one after the other (column-major), `r` observations: row i = <<1, x_1[i], ..., x_k[i]>>;
+\* data that does not fill its columns is not a matrix (rejected)
+DesignK(x, r) == LET k == Len(x) \div r IN
+                 [q \in 1..(r * (k + 1)) |-> LET i == (q - 1) \div (k + 1)  j == (q - 1) % (k + 1) IN IF j = 0 THEN 1 ELSE x[(j - 1) * r + i + 1]]
 Design1(x)   == [k \in 1..(2 * Len(x)) |-> IF (k - 1) % 2 = 0 THEN 1 ELSE x[((k - 1) \div 2) + 1]]
 
 \* arange in eighths: all a + i*s < b, i = 0, 1, ...  (s > 0)
@@ -41,6 +45,12 @@ RotCW(ax) == CASE ax = "X" -> <<"1", "0", "0", "0", "c", "s", "0", "ms", "c">>
 TransposeSyms(p) == [k \in 1..9 |-> p[((k - 1) % 3) * 3 + ((k - 1) \div 3) + 1]]
 RotCCW(ax) == TransposeSyms(RotCW(ax))
 
+Upper(n) == {k \in 1..(n * n) : ((k - 1) \div n) < ((k - 1) % n)}
+NearSymCases(n) ==
+  {[call |-> "t_near_symmetric", n |-> n, x |-> [k \in 1..(n * n) |-> (((k - 1) \div n) + ((k - 1) % n)) % 4],
+    bump |-> [k \in 1..(n * n) |-> IF k \in B THEN 1 ELSE 0], src |-> Transpose(Mat(n, n, [k \in 1..(n * n) |-> k])).data] :
+       B \in {Upper(n)} \cup {{k} : k \in Upper(n)}}
+
 IntVecs(n, lo, hi) == [1..n -> lo..hi]
 
 Cases ==
@@ -52,6 +62,8 @@ Cases ==
   \cup {[call |-> "vandermonde", x |-> x, n |-> n, exp |-> Vandermonde(x, n)] :
            x \in {<<2>>, <<-1, 2>>, <<0, 1, -2>>, <<3, -3, 2, 1>>}, n \in 1..5}
   \cup {[call |-> "design", x |-> x, exp |-> Design1(x)] : x \in {<<5>>, <<2, 3>>, <<-1, 0, 4>>, <<7, 7, 7, 1>>}}
+  \cup {[call |-> "design", r |-> r, x |-> [i \in 1..n |-> 3 * i - 7], panic |-> (n % r # 0),
+         exp |-> IF n % r = 0 THEN DesignK([i \in 1..n |-> 3 * i - 7], r) ELSE <<>>] : n \in 1..9, r \in 1..4}
   \cup {[call |-> "arange", a |-> a, b |-> b, s |-> s, exp |-> Arange(a, b, s)] :
            a \in {-8, 0, 3}, b \in {-8, 0, 5, 8, 16, 19}, s \in {1, 2, 3, 8, 12}}
   \cup {[call |-> "arange", a |-> a, b |-> b, s |-> s, above |-> TRUE, exp |-> ArangeAbove(a, b, s)] :
@@ -63,6 +75,10 @@ Cases ==
   \cup {[call |-> "is_symmetric", n |-> 2, x |-> x, exp |-> (x[2] = x[3])] : x \in IntVecs(4, -1, 1)}
   \cup {[call |-> "is_symmetric", n |-> 3, x |-> <<1, a, b, c, 1, d, e, f, 1>>, exp |-> (a = c /\ b = e /\ d = f)] :
            a \in (-1)..1, b \in (-1)..1, c \in (-1)..1, d \in (-1)..1, e \in 0..1, f \in 0..1}
+  \* transposition moves elements, whatever their values: matrices that are symmetric up to the last bit (mirrored entries one
+  \* unit in the last place apart - the harness supplies the values; `bump` marks the raised positions) are transposed like any other;
+  \* src[k] = position the k-th element of the result comes from
+  \cup UNION {NearSymCases(n) : n \in 2..4}
   \cup {[call |-> "is_design", r |-> 3, x |-> <<a, 5, b, 6, c, 7>>, exp |-> (a = 1 /\ b = 1 /\ c = 1)] :
            a \in 0..2, b \in 0..2, c \in 0..2}
   \cup {[call |-> "close_to", x |-> x, y |-> y, tb |-> tb, exp |-> CloseTo(x, y, tb)] :
@@ -80,7 +96,10 @@ Sane(c) ==
     [] c.call = "diag_matrix" -> LET n == Len(c.x) IN Diag(Mat(n, n, c.exp)) = c.x /\ IsSym(Mat(n, n, c.exp))
     [] c.call = "toeplitz" -> LET n == Len(c.x) IN IsSym(Mat(n, n, c.exp)) /\ Row(Mat(n, n, c.exp), 0) = c.x
     [] c.call = "vandermonde" -> \A i \in 1..Len(c.x) : c.exp[(i - 1) * c.n + 1] = 1
-    [] c.call = "design" -> \A i \in 1..Len(c.x) : c.exp[2 * i - 1] = 1 /\ c.exp[2 * i] = c.x[i]
+    [] c.call = "t_near_symmetric" -> /\ IsSym(Mat(c.n, c.n, c.x)) /\ \A k \in 1..(c.n * c.n) : c.src[c.src[k]] = k
+                                      /\ \A k \in 1..(c.n * c.n) : c.bump[k] = 1 => ((k - 1) \div c.n) < ((k - 1) % c.n)
+    [] c.call = "design" /\ "r" \in DOMAIN c -> c.panic \/ (LET k == Len(c.x) \div c.r IN Len(c.exp) = c.r * (k + 1) /\ \A i \in 1..c.r : c.exp[(i - 1) * (k + 1) + 1] = 1)
+    [] c.call = "design" -> \A i \in 1..Len(c.x) : c.exp[2 * i - 1] = 1 /\ c.exp[2 * i] = c.x[i] /\ c.exp = DesignK(c.x, Len(c.x))
     [] c.call = "arange" /\ "above" \in DOMAIN c -> LET n == Len(c.exp) IN
           /\ (n > 0 => c.exp[1] = c.a /\ c.exp[n] <= c.b /\ c.exp[n] + c.s > c.b)
           /\ (n = 0 => c.b < c.a)
